@@ -230,6 +230,7 @@ typedef struct
     uint32_t kfp;    /* fingerprint of the sender's write key when it sealed the record */
     unsigned char seq[8]; /* sender's write sequence number for the record (TLS) */
     int forged_ok;   /* forged with the receiver's current read state (always authentic if delivered now) */
+    int alvl, adesc; /* alert level / description as sealed (itype == 21), else -1 */
 } rec_t;
 
 typedef struct ep
@@ -257,7 +258,7 @@ typedef struct ep
     sb_t dlv;           /* deliveries during the current command */
     sb_t alin;          /* alerts received during the current command */
     sb_t outrecs;       /* record types flushed during the current command */
-    struct { int type, msg, wsec; uint32_t kfp; unsigned char seq[8]; } sealq[512]; /* tags of records sealed but not yet flushed */
+    struct { int type, msg, wsec; uint32_t kfp; unsigned char seq[8]; int alvl, adesc; } sealq[512]; /* tags of records sealed but not yet flushed */
     int sealn;
     int tagmis;
     int lastrc;
@@ -308,7 +309,7 @@ static rec_t rec_make(const unsigned char *b, int n, int origin)
     r.n = n;
     r.id = g_recid++;
     r.origin = origin;
-    r.itype = -1; r.imsg = -1; r.wsec = 0; r.kfp = 0; memset(r.seq, 0, 8); r.forged_ok = 0;
+    r.itype = -1; r.imsg = -1; r.wsec = 0; r.kfp = 0; memset(r.seq, 0, 8); r.forged_ok = 0; r.alvl = -1; r.adesc = -1;
     return r;
 }
 
@@ -401,8 +402,11 @@ static void verif_hook(int ev, void *ssl, long a, long b, void *p, long n)
         int type = (int) a;
         if (USING_TLS_1_3(((ssl_t *) ssl)) && !(((ssl_t *) ssl)->flags & SSL_FLAGS_WRITE_SECURE))
         {
+            /* unprotected TLS 1.3 record: the "plaintext" handed to the encrypt routine may include
+               the 5-byte record header */
             unsigned char *pp = p;
-            type = (n == 2 && (pp[0] == 1 || pp[0] == 2)) ? 21 : 22;
+            if (n > 5 && pp[0] >= 20 && pp[0] <= 23 && pp[1] == 3) { type = pp[0]; p = pp + 5; n -= 5; }
+            else type = (n == 2 && (pp[0] == 1 || pp[0] == 2)) ? 21 : 22;
         }
         else if (USING_TLS_1_3(((ssl_t *) ssl)))
         {
@@ -424,7 +428,7 @@ static void verif_hook(int ev, void *ssl, long a, long b, void *p, long n)
                     int off = (wsec && ACTV_VER(s, v_tls_explicit_iv) && s->enBlockSize > 1) ? s->enBlockSize : 0;
                     msg = (n > off) ? ((unsigned char *) p)[off] : (int) b;
                 }
-                if (USING_TLS_1_3(s) && !wsec && n > 5 && msg == 22) msg = ((unsigned char *) p)[5]; /* plaintext incl. record header */
+
                 b = msg;
             }
             if (type == 21 && n >= 2)
@@ -438,6 +442,7 @@ static void verif_hook(int ev, void *ssl, long a, long b, void *p, long n)
             {
                 e->sealq[e->sealn].type = type; e->sealq[e->sealn].msg = msg; e->sealq[e->sealn].wsec = wsec;
                 e->sealq[e->sealn].kfp = wkey_fp(s); memcpy(e->sealq[e->sealn].seq, s->sec.seq, 8);
+                e->sealq[e->sealn].alvl = type == 21 ? (int) lvl : -1; e->sealq[e->sealn].adesc = type == 21 ? (int) b : -1;
                 e->sealn++;
             }
             sb_printf(&e->sub, "%s{\"k\":\"S\",\"t\":\"%d\",\"x\":%d,\"n\":%ld}", e->sub.n ? "," : "", type, (int) b, type == 21 ? lvl : n);
@@ -581,7 +586,8 @@ static int ep_flush_ex(ep_t *e, int maxbytes, int timeout)
                     if (e->sealn > 0)
                     {
                         r.itype = e->sealq[0].type; r.imsg = e->sealq[0].msg; r.wsec = e->sealq[0].wsec;
-                        r.kfp = e->sealq[0].kfp; memcpy(r.seq, e->sealq[0].seq, 8);
+                        r.kfp = e->sealq[0].kfp; memcpy(r.seq, e->sealq[0].seq, 8); r.alvl = e->sealq[0].alvl; r.adesc = e->sealq[0].adesc;
+                        r.alvl = e->sealq[0].alvl; r.adesc = e->sealq[0].adesc;
                         memmove(&e->sealq[0], &e->sealq[1], sizeof(e->sealq[0]) * (e->sealn - 1));
                         e->sealn--;
                     }
@@ -589,6 +595,7 @@ static int ep_flush_ex(ep_t *e, int maxbytes, int timeout)
                     {
                         /* unprotected record that did not pass through the seal hook (TLS 1.3 ClientHello) */
                         r.itype = buf[off]; r.imsg = buf[off] == 22 ? buf[off + hl] : -1; r.wsec = 0;
+                        if (buf[off] == 21 && rl >= hl + 2) { r.alvl = buf[off + hl]; r.adesc = buf[off + hl + 1]; }
                     }
                     else
                     {
@@ -601,6 +608,7 @@ static int ep_flush_ex(ep_t *e, int maxbytes, int timeout)
                         e->hist[e->histn].id = r.id;
                         e->hist[e->histn].itype = r.itype; e->hist[e->histn].imsg = r.imsg; e->hist[e->histn].wsec = r.wsec;
                         e->hist[e->histn].kfp = r.kfp; memcpy(e->hist[e->histn].seq, r.seq, 8);
+                        e->hist[e->histn].alvl = r.alvl; e->hist[e->histn].adesc = r.adesc;
                         e->histn++;
                     }
                     sb_printf(&e->outrecs, "%s%d", e->outrecs.n ? "," : "", buf[off]);
@@ -1160,7 +1168,7 @@ static void do_deliver(ep_t *src, int count, int chunk)
 {
     ep_t *dst = src->peer;
     unsigned char *buf;
-    int total = 0, i, ids0 = -1, origin = 0, itype = -1, imsg = -1, wsec = 0, kmatch = 0, seqm = 0, auth = 0;
+    int total = 0, i, ids0 = -1, origin = 0, itype = -1, imsg = -1, wsec = 0, kmatch = 0, seqm = 0, auth = 0, alvl = -1, adesc = -1;
     if (!dst) die("endpoint %s has no peer", src->name);
     if (count > src->qn) count = src->qn;
     if (count <= 0) return;
@@ -1168,6 +1176,7 @@ static void do_deliver(ep_t *src, int count, int chunk)
     buf = malloc(total + 1);
     total = 0;
     ids0 = src->q[0].id; itype = src->q[0].itype; imsg = src->q[0].imsg; wsec = src->q[0].wsec;
+    alvl = src->q[0].alvl; adesc = src->q[0].adesc;
     if (dst->ssl)
     {
         rec_t *r0 = &src->q[0];
@@ -1204,8 +1213,8 @@ static void do_deliver(ep_t *src, int count, int chunk)
     }
     if (dst->autoflush) ep_flush(dst, 0);
     emit_begin(&g_out, "deliver", dst);
-    sb_printf(&g_out, ",\"from\":\"%s\",\"nrec\":%d,\"bytes\":%d,\"rtype\":%d,\"rid\":%d,\"origin\":%d,\"itype\":%d,\"imsg\":\"%s\",\"wsec\":%d,\"kmatch\":%d,\"seqm\":%d,\"auth\":%d",
-        src->name, count, total, total > 0 ? buf[0] : -1, ids0, origin, itype, imsg >= 0 ? hs_name(imsg) : "-", wsec, kmatch, seqm, auth);
+    sb_printf(&g_out, ",\"from\":\"%s\",\"nrec\":%d,\"bytes\":%d,\"rtype\":%d,\"rid\":%d,\"origin\":%d,\"itype\":%d,\"imsg\":\"%s\",\"wsec\":%d,\"kmatch\":%d,\"seqm\":%d,\"auth\":%d,\"alvl\":%d,\"adesc\":%d",
+        src->name, count, total, total > 0 ? buf[0] : -1, ids0, origin, itype, imsg >= 0 ? hs_name(imsg) : "-", wsec, kmatch, seqm, auth, alvl, adesc);
     emit_state(&g_out, dst);
     emit_end(&g_out);
     free(buf);
@@ -1361,7 +1370,7 @@ static void cmd_adv(char **tok, int ntok)
     {
         int i = idx_arg(e, tok[2]);
         rec_t r = rec_make(e->q[i].b, e->q[i].n, 4);
-        r.itype = e->q[i].itype; r.imsg = e->q[i].imsg; r.wsec = e->q[i].wsec; r.kfp = e->q[i].kfp; memcpy(r.seq, e->q[i].seq, 8);
+        r.itype = e->q[i].itype; r.imsg = e->q[i].imsg; r.wsec = e->q[i].wsec; r.kfp = e->q[i].kfp; memcpy(r.seq, e->q[i].seq, 8); r.alvl = e->q[i].alvl; r.adesc = e->q[i].adesc;
         q_insert(e, i + 1, r);
         emit_adv("dup", e, "\"idx\":%d", i);
     }
@@ -1385,6 +1394,7 @@ static void cmd_adv(char **tok, int ntok)
             /* unprotected record: what it now claims to be is what the receiver will see */
             e->q[i].itype = e->q[i].b[0];
             e->q[i].imsg = e->q[i].b[0] == 22 ? e->q[i].b[rec_hdrlen(e)] : -1;
+            if (e->q[i].b[0] == 21 && e->q[i].n >= rec_hdrlen(e) + 2) { e->q[i].alvl = e->q[i].b[rec_hdrlen(e)]; e->q[i].adesc = e->q[i].b[rec_hdrlen(e) + 1]; }
         }
         emit_adv("mod", e, "\"idx\":%d,\"off\":%d,\"xor\":%d,\"rlen\":%d", i, off, x, e->q[i].n);
     }
@@ -1437,6 +1447,7 @@ static void cmd_adv(char **tok, int ntok)
         {
             rec_t r = rec_make(b, hl + bl, 2);
             r.itype = type; r.imsg = (type == 22 && bl > 0) ? b[hl] : -1; r.wsec = 0;
+            if (type == 21 && bl >= 2) { r.alvl = b[hl]; r.adesc = b[hl + 1]; }
             q_insert(e, atoi(tok[2]), r);
         }
         free(b);
@@ -1457,8 +1468,9 @@ static void cmd_adv(char **tok, int ntok)
         if (hst >= 0 && type == 22)
         {
             /* handshake message header + filler body of bl bytes total message */
-            int ml = bl - (to->dtls ? 12 : 4);
-            if (ml < 0) die("forge: handshake body too short");
+            int ml;
+            if (bl < (to->dtls ? 12 : 4)) { bl = (to->dtls ? 12 : 4) + 4; body = realloc(body, bl + 16); out = realloc(out, bl + 512); for (i = 0; i < bl; i++) body[i] = (unsigned char) (0x61 + (i % 26)); }
+            ml = bl - (to->dtls ? 12 : 4);
             body[0] = (unsigned char) hst; body[1] = ml >> 16; body[2] = ml >> 8; body[3] = ml & 0xff;
             if (to->dtls)
             {
@@ -1472,6 +1484,7 @@ static void cmd_adv(char **tok, int ntok)
         {
             rec_t r = rec_make(out, n, 3);
             r.itype = type; r.imsg = (type == 22 && bl > 0) ? body[0] : -1;
+            if (type == 21 && bl >= 2) { r.alvl = body[0]; r.adesc = body[1]; }
             r.wsec = !!(to->ssl->flags & SSL_FLAGS_READ_SECURE);
             r.kfp = rkey_fp(to->ssl); memcpy(r.seq, to->ssl->sec.remSeq, 8);
             { int sd = opt_int(tok, ntok, "seqd", 0), k2; for (; sd > 0; sd--) for (k2 = 7; k2 >= 0; k2--) { if (++r.seq[k2]) break; } }
@@ -1488,7 +1501,7 @@ static void cmd_adv(char **tok, int ntok)
         if (h < 0 || h >= e->histn) skip_action(e, "history");
         {
             rec_t r = rec_make(e->hist[h].b, e->hist[h].n, 4);
-            r.itype = e->hist[h].itype; r.imsg = e->hist[h].imsg; r.wsec = e->hist[h].wsec; r.kfp = e->hist[h].kfp; memcpy(r.seq, e->hist[h].seq, 8);
+            r.itype = e->hist[h].itype; r.imsg = e->hist[h].imsg; r.wsec = e->hist[h].wsec; r.kfp = e->hist[h].kfp; memcpy(r.seq, e->hist[h].seq, 8); r.alvl = e->hist[h].alvl; r.adesc = e->hist[h].adesc;
             q_insert(e, atoi(tok[2]), r);
         }
         emit_adv("replay", e, "\"hidx\":%d,\"rtype\":%d", h, e->hist[h].b[0]);
@@ -1502,7 +1515,7 @@ static void cmd_adv(char **tok, int ntok)
         if (h < 0 || h >= e->histn) skip_action(e, "history");
         {
             rec_t r = rec_make(e->hist[h].b, e->hist[h].n, 5);
-            r.itype = e->hist[h].itype; r.imsg = e->hist[h].imsg; r.wsec = e->hist[h].wsec; r.kfp = e->hist[h].kfp; memcpy(r.seq, e->hist[h].seq, 8);
+            r.itype = e->hist[h].itype; r.imsg = e->hist[h].imsg; r.wsec = e->hist[h].wsec; r.kfp = e->hist[h].kfp; memcpy(r.seq, e->hist[h].seq, 8); r.alvl = e->hist[h].alvl; r.adesc = e->hist[h].adesc;
             q_insert(e->peer, 0, r);
         }
         emit_adv("reflect", e, "\"hidx\":%d,\"rtype\":%d", h, e->hist[h].b[0]);
